@@ -1610,17 +1610,46 @@ def diff_snap(a, b, path="result"):
     return None if a == b else (path, a, b)
 
 
-def make_snapshot_criterion(table: Table):
+BUILTIN_CRITERIA = ("BestIndividualChangeTolerance", "BestIndividualRelativeChangeTolerance", "BestIndividualExpectationValueThreshold",
+                    "PopulationChangeTolerance", "PopulationChangeRelativeTolerance")
+
+
+def make_builtin_criterion(name):
+    """One of the package's termination criteria, configured so that it practically never asks to terminate."""
+    from queasars.minimum_eigensolvers.base import termination_criteria as tc
+
+    if name == "BestIndividualExpectationValueThreshold":
+        return tc.BestIndividualExpectationValueThreshold(expectation_threshold=-1e9)
+    if name == "BestIndividualChangeTolerance":
+        return tc.BestIndividualChangeTolerance(minimum_change=1e-12, allowed_consecutive_violations=3)
+    if name == "BestIndividualRelativeChangeTolerance":
+        return tc.BestIndividualRelativeChangeTolerance(minimum_relative_change=1e-12, allowed_consecutive_violations=3)
+    if name == "PopulationChangeTolerance":
+        return tc.PopulationChangeTolerance(minimum_change=1e-12, allowed_consecutive_violations=3)
+    if name == "PopulationChangeRelativeTolerance":
+        return tc.PopulationChangeRelativeTolerance(minimum_relative_change=1e-12, allowed_consecutive_violations=3)
+    raise ValueError(name)
+
+
+def make_snapshot_criterion(table: Table, inner_name=None):
     """A termination criterion that never terminates and records a structural snapshot of every evaluation result at
-    the time it is reported, one list per solve (reset_state starts a new list)."""
+    the time it is reported, one list per solve (reset_state starts a new list).  With inner_name it then hands the REAL
+    objects (evaluation result, best individual, best value) to that built-in criterion of the package, exactly as the
+    solver would (its answer is ignored so that the run has its planned number of generations; its exceptions propagate)."""
     from queasars.minimum_eigensolvers.base.termination_criteria import EvolvingAnsatzMinimumEigensolverBaseTerminationCriterion
+
+    inner = None if inner_name is None else make_builtin_criterion(inner_name)
 
     class SnapshotCriterion(EvolvingAnsatzMinimumEigensolverBaseTerminationCriterion):
         def __init__(self):
             self.runs = []
+            self.inner = inner
+            self.inner_answers = []
 
         def reset_state(self):
             self.runs.append([])
+            if inner is not None:
+                inner.reset_state()
 
         def check_termination(self, population_evaluation, best_individual, best_expectation_value):
             if not self.runs:
@@ -1629,6 +1658,8 @@ def make_snapshot_criterion(table: Table):
                 self.runs[-1].append(snap_evaluation_result(population_evaluation, table))
             except Exception as e:  # noqa: BLE001
                 self.runs[-1].append({"unreadable": f"{type(e).__name__}: {e}"})
+            if inner is not None:
+                self.inner_answers.append(bool(inner.check_termination(population_evaluation, best_individual, best_expectation_value)))
             return False
 
     return SnapshotCriterion()
@@ -1647,7 +1678,8 @@ def solver_level_cases(rng, n_scripted, n_evqe, n_package):
             if rng.random() < 0.8 or k % 2 == 1:
                 evs.append(["result", k, rng.randint(0, 3), rng.choice([-1.0, 0.0, 0.5, 2.0, 3.25])])
             apps.append(dict(events=evs, ret=k + 1))
-        cases.append(dict(kind="scripted", n_ops=rng.randint(1, 3), n_qubits=2, max_generations=g, apps=apps, solves=rng.choice([2, 2, 3])))
+        cases.append(dict(kind="scripted", n_ops=rng.randint(1, 3), n_qubits=2, max_generations=g, apps=apps, solves=rng.choice([2, 2, 3]),
+                          criterion=rng.choice([None] + list(BUILTIN_CRITERIA)), with_none=rng.random() < 0.5))
     for kind, count in (("evqe", n_evqe), ("package", n_package)):
         for _ in range(count):
             pop = rng.randint(2, 3)
@@ -1658,8 +1690,25 @@ def solver_level_cases(rng, n_scripted, n_evqe, n_package):
                          distance=rng.choice([1, 2]), opt_estimate=None, max_generations=rng.randint(1, 2), max_evals=None, criterion=None, init=rng.choice([None, "x0"]),
                          aux=rng.choice([None, "list", "dict"]), coeffs=[rng.choice([-1.0, -0.5, 0.25, 0.5, 1.0, 2.0]) for _ in range(4)], alpha=1, shots=32, family=kind,
                          more=[dict(coeffs=[rng.choice([-2.0, -1.0, 0.5, 1.0, 1.5]) for _ in range(4)], init=rng.choice([None, "x0"]), aux=rng.choice([None, "list", "dict"]))])
-            cases.append(dict(kind=kind, setup=setup, solves=2))
+            cases.append(dict(kind=kind, setup=setup, solves=2, criterion=rng.choice([None] + list(BUILTIN_CRITERIA))))
     return cases
+
+
+def criterion_cases(rng):
+    """One scripted solve per built-in termination criterion class, 3-4 generations, with an evaluation operator that
+    reports None for some individuals (expectation_values: tuple[Optional[float], ...])."""
+    cases = []
+    for name in BUILTIN_CRITERIA:
+        g = rng.randint(3, 4)
+        apps = [dict(events=[["count", rng.randint(0, 9)], ["result", k, rng.randint(0, 3), rng.choice([-1.0, 0.5, 2.0, 3.25]) + k / 8.0]], ret=k + 1) for k in range(2 * g + 2)]
+        cases.append(dict(kind="scripted", n_ops=2, n_qubits=2, max_generations=g, apps=apps, solves=2, criterion=name, with_none=True))
+    return cases
+
+
+def long_run_case(generations=600):
+    """One cheap long solve with stub operators: more generations than any plausible retention bound of the history."""
+    apps = [dict(events=[["count", 1], ["result", k, k % 4, float((k * 37) % 101) / 4.0]], ret=k + 1) for k in range(generations + 2)]
+    return dict(kind="scripted", n_ops=1, n_qubits=2, max_generations=generations, apps=apps, solves=1, criterion=None, with_none=False, long=True)
 
 
 def run_solver_case(case, report):
@@ -1674,10 +1723,18 @@ def run_solver_case(case, report):
     table = Table()
     notes = dict(shared=[])
 
+    class NoneTape(sk.ScriptTape):
+        """the scripted evaluation reports several individuals, some of them without a value (None)"""
+
+        def make_result(self, rid, ind, value, population):
+            r = super().make_result(rid, ind, value, population)
+            r.expectation_values = (value, None, value + 0.5, None, value + 1.25)[: 3 + rid % 3]
+            return r
+
     def build():
-        crit = make_snapshot_criterion(table)
+        crit = make_snapshot_criterion(table, case.get("criterion"))
         if case["kind"] == "scripted":
-            tape = sk.ScriptTape(case["apps"], [], case["n_qubits"])
+            tape = (NoneTape if case.get("with_none") else sk.ScriptTape)(case["apps"], [], case["n_qubits"])
             solver = sk.build_scripted_solver(case["n_ops"], tape, max_generations=case["max_generations"], criterion=crit)
             n = case["n_qubits"]
 
@@ -1750,10 +1807,11 @@ def run_solver_case(case, report):
             except Exception:  # noqa: BLE001
                 pass
     # a solve on a fresh solver object, then garbage collection
-    solver2, crit2, problem2 = build()
-    solve(problem2(0), "solve on a fresh solver")
-    compare(results, crit, "after a solve on a fresh solver object")
-    del solver2, crit2, problem2
+    if not case.get("long"):
+        solver2, crit2, problem2 = build()
+        solve(problem2(0), "solve on a fresh solver")
+        compare(results, crit, "after a solve on a fresh solver object")
+        del solver2, crit2, problem2
     gc.collect()
     compare(results, crit, "after garbage collection")
     # identity graph between the results of one solver
@@ -1767,6 +1825,8 @@ def run_solver_case(case, report):
             for name, i in idb.items():
                 if i in inv:
                     notes["shared"].append(f"solve #{live[a][0] + 1}.{inv[i]} is solve #{live[b][0] + 1}.{name}")
+    notes["criterion"] = case.get("criterion")
+    notes["criterion_consulted"] = len(getattr(crit, "inner_answers", []))
     notes["solves"] = sum(1 for r, _ in results if r is not None)
     notes["history_entries"] = sum(len(s["history"] or []) for r, s in results if r is not None)
     return notes
